@@ -115,6 +115,15 @@ CLAIMED = {
          "by differential runs over grammar-generated trees in both directions: success/rejection must agree and the converted expressions must "
          "take the same values at sample points; the same runs search for a failing expression on the real code.",
          "DESIGN.md §2 C19", "Lean 4 proof over a hand-written model + correspondence check (differential runs of model and implementation on generated expression trees)"),
+ "C20": ("proof", "Lean 4 theorems, by induction over ALL operation histories, about a hand model of cyecca/sim/uros.py and of the estimator node's "
+         "timing logic (lean/Model/Bus.lean): a publication of the declared type reaches exactly the subscribers of its topic, once each, in "
+         "subscription order and, over any sequence of publications, in publication order; a wrong type is rejected with nothing changed; no "
+         "delivery ever goes to a non-subscriber; the logger's lock freezes the topology; after set_param every node following the parameter "
+         "topic holds the new value and no other node does; one logger row per wake-up with non-decreasing times and the latest message per "
+         "topic; the estimator never predicts with dt <= 0 and an independent monitor of its actions accepts every message history (corrections "
+         "at least dt_min - 1 ms apart, parameter updates in between). The model is tied to the real classes on every run by differential runs "
+         "over generated operation sequences and message timings (replies, delivery log, caches, rows, actions must agree).",
+         "DESIGN.md §2 C20", "Lean 4 proof over a hand-written model + correspondence check (differential runs of model and implementation on generated histories)"),
 }
 checks = []
 for pid, (cat, text, ref, tech) in CLAIMED.items():
